@@ -640,10 +640,24 @@ def clause_permutations():
     return out
 
 
+TRAILING_COMMA = [("ParseExpr", "f(1, )"), ("ParseExpr", "f(x => 1, )"), ("ParseExpr", "f(1, x => 1, y => 2, )"), ("ParseExpr", "SAFE.g(a => b,) + 1"),
+                  ("ParseExpr", "[1, 2, ]"), ("ParseExpr", "(1, 2, )"), ("ParseExpr", "STRUCT(1, )"), ("ParseExpr", "STRUCT<a INT64, >(1)"), ("ParseExpr", "x IN (1, )"),
+                  ("ParseExpr", "ARRAY<INT64>[1, ]"), ("ParseExpr", "NEW p.M {a: 1, }"), ("ParseExpr", "CASE WHEN a THEN f(1, ) END"), ("ParseExpr", "x IN UNNEST([1, ])"),
+                  ("ParseQuery", "SELECT a, FROM t"), ("ParseQuery", "SELECT a, b, "), ("ParseQuery", "SELECT * FROM t GROUP BY a, "), ("ParseQuery", "SELECT * FROM t ORDER BY a, "),
+                  ("ParseQuery", "SELECT * FROM a JOIN b USING (x, )"), ("ParseQuery", "WITH w AS (SELECT 1), SELECT * FROM w"), ("ParseQuery", "SELECT f(x => 1, ) FROM t"),
+                  ("ParseQuery", "SELECT * FROM tvf(1, )"), ("ParseQuery", "SELECT * FROM tvf(a => 1, )"), ("ParseQuery", "SELECT @{a=1, } 1"),
+                  ("ParseQuery", "SELECT * EXCEPT (a, ) FROM t"), ("ParseQuery", "SELECT * REPLACE (1 AS a, ) FROM t"),
+                  ("ParseDML", "INSERT INTO t (a, ) VALUES (1, )"), ("ParseDML", "INSERT INTO t (a) VALUES (1), "), ("ParseDML", "UPDATE t SET a = 1, WHERE TRUE"),
+                  ("ParseDML", "INSERT INTO t (a) SELECT 1,"), ("ParseDML", "DELETE FROM t WHERE a IN (1, ) THEN RETURN a, "),
+                  ("ParseDDL", "CREATE TABLE t (a INT64, ) PRIMARY KEY (a, )"), ("ParseDDL", "CREATE TABLE t (a INT64 OPTIONS (x = 1, )) PRIMARY KEY (a)"),
+                  ("ParseDDL", "CREATE INDEX i ON t (a, ) STORING (b, )"), ("ParseDDL", "GRANT SELECT, ON TABLE t, TO ROLE r, "), ("ParseDDL", "CREATE CHANGE STREAM s FOR t(a, ), u, "),
+                  ("ParseDDL", "ALTER TABLE t ADD FOREIGN KEY (a, ) REFERENCES p (b, )"), ("ParseType", "STRUCT<a INT64, >"), ("ParseType", "STRUCT<INT64, STRING, >")]
+
+
 def probe_cases():
     """seed-independent inputs that are NOT all sentences of the reference grammar (many are rejected): they probe the oracles that
     apply to whatever is accepted (round trip, positions, traversal ...), never the acceptance property C08"""
-    return literal_systematic() + pseudo_keyword_cases() + [("ParseExpr", x) for x in NUMERIC_POSTFIX] + clause_permutations()
+    return literal_systematic() + pseudo_keyword_cases() + [("ParseExpr", x) for x in NUMERIC_POSTFIX] + clause_permutations() + [(e, x.encode()) for (e, x) in TRAILING_COMMA]
 
 
 def systematic_cases(valid_only=True):
@@ -984,6 +998,13 @@ INJECT_BASE = [
     ("ParseStatement", "CREATE SEQUENCE s BIT_REVERSED_POSITIVE SKIP RANGE 1 , 2 START COUNTER WITH 3 OPTIONS ( o = 1 )"),
     ("ParseStatement", "CALL p ( 1 , ( SELECT 2 ) )"),
     ("ParseType", "STRUCT < a ARRAY < STRUCT < b INT64 , c x . y > > , d STRING >"),
+    ("ParseQuery", "SELECT ( ( SELECT 1 ) ) , x IN ( ( SELECT 2 ) ) FROM ( ( SELECT 3 ) ) WHERE y = ( ( ( SELECT 4 ) ) )"),
+    ("ParseStatement", "DELETE FROM t WHERE a = ( ( SELECT 1 UNION ALL SELECT 2 ) )"),
+    # hints in every place a hint is documented, and in places where one might be added (probes: rejected today)
+    ("ParseQuery", "@{ h = 1 } SELECT a FROM t @{ FORCE_INDEX = i } JOIN @{ JOIN_METHOD = HASH_JOIN } u ON a = b GROUP @{ g = 1 } BY a"),
+    ("ParseExpr", "EXISTS @{ h = 1 } ( WITH w AS ( SELECT 1 ) SELECT * FROM w UNION ALL SELECT 2 UNION ALL SELECT 3 )"),
+    ("ParseExpr", "ARRAY @{ h = 1 } ( WITH w AS ( SELECT 1 ) SELECT * FROM w ) [ OFFSET ( 0 ) ] + f @{ h = 1 } ( x )"),
+    ("ParseStatement", "@{ h = 1 } INSERT INTO t ( a ) @{ g = 2 } SELECT 1 FROM u"),
 ]
 BAD_PARSE = [b"( 1 + )", b"g ( 1 2 )", b"a [ 1 + ]", b"( SELECT 1 2 )", b"CASE WHEN 1 2 THEN 3 END", b"x y z"]
 BAD_LEX = [b"1a", b"'abc", b'"abc', b"`x", b"/* open", b"0x", b"1e+", b"'a\\q'"]
@@ -1014,3 +1035,28 @@ def injection_cases(rnd, quick):
             t2 = toks[:i] + ([first] if first else []) + toks[i + 1:j] + [BAD_LEX[(i * 7 + j) % len(BAD_LEX)]] + toks[j + 1:]
             out.append((e, b" ".join(t2)))
     return out
+
+
+def truncated_piece_lists():
+    """lists whose first piece is a proper prefix of a statement (C11: the list has no error exactly when every piece is accepted alone;
+    a production that stops early only because the next token is ';' rather than end of input shows up here)"""
+    out = []
+    bases = [b_.encode() for (e, b_) in INJECT_BASE if e in ("ParseStatement", "ParseQuery")] + [t.encode() for t in G.DDL_MORE]
+    for b_ in bases:
+        toks = b_.split(b" ")
+        for i in range(1, len(toks)):
+            head = b" ".join(toks[:i])
+            ddl = head.upper().startswith((b"CREATE", b"ALTER", b"DROP", b"GRANT", b"REVOKE", b"RENAME", b"ANALYZE"))
+            dml = head.upper().startswith((b"INSERT", b"UPDATE", b"DELETE"))
+            out.append(("ParseStatements", head + b"; SELECT 1"))
+            if ddl:
+                out.append(("ParseDDLs", head + b";"))
+                out.append(("ParseDDLs", head + b" /* c */ ;\nDROP TABLE t"))
+            if dml:
+                out.append(("ParseDMLs", head + b"; DELETE FROM t WHERE TRUE"))
+    return out
+
+
+MULTIBYTE_BEFORE_ERROR = [b"SELECT '\xc3\xa9' FROM FROM", b"SELECT 1\nFROM `\xe6\x97\xa5\xe6\x9c\xac\xe8\xaa\x9e` WHERE", b"SELECT /* \xf0\x9f\x98\x80 */ )",
+                          b"SELECT \"\xc3\xa9\xc3\xa9\" AS a, 'x' y z", b"-- \xc3\xa9\nSELECT '\xe2\x82\xac' + ) FROM t", b"SELECT `\xc3\xa9`.`\xf0\x9f\x98\x80` FROM (",
+                          b"CREATE TABLE `t\xc3\xa9` (a INT64) PRIMARY (a)", b"SELECT '\xc3\xa9';\nSELECT '\xc3\xa9\xc3\xa9' 1 2"]
